@@ -130,9 +130,9 @@ impl Check for C10 {
     }
     fn cases(&self, thorough: bool) -> usize {
         if thorough {
-            1_500_000
+            10_000_000
         } else {
-            60_000
+            150_000
         }
     }
     fn generate(&self, d: &mut Dec, thorough: bool) -> Case {
@@ -346,9 +346,9 @@ impl Check for C11 {
     }
     fn cases(&self, thorough: bool) -> usize {
         if thorough {
-            1_500_000
+            10_000_000
         } else {
-            60_000
+            150_000
         }
     }
     fn generate(&self, d: &mut Dec, thorough: bool) -> Case {
@@ -633,9 +633,9 @@ impl Check for C09 {
     }
     fn cases(&self, thorough: bool) -> usize {
         if thorough {
-            1_500_000
+            10_000_000
         } else {
-            60_000
+            150_000
         }
     }
     fn generate(&self, d: &mut Dec, thorough: bool) -> Case {
